@@ -391,7 +391,7 @@ def one_config(job):
                 grew = [i for i, (a, b) in enumerate(zip(prev_lens, lens)) if a != b] if len(prev_lens) == len(lens) else None
                 pure = (stride == 1 and prev_term is not None and grew is not None and len(grew) <= 1 and len(s.bounds) == nb0 and bool(s.explored) == ex0)
                 case = None
-                if len(out['codec_cases']) < 40 and (k % 3 == 0 or phase in ('after-bound', 'end-exploration', 'first')):
+                if len(out['codec_cases']) < (24 if tier == 'quick' else 60) and (k % 3 == 0 or phase in ('after-bound', 'end-exploration', 'first')):
                     sh = grew[0] if (pure and grew) else (len(s.bounds) - 1)
                     case = True
                     out['codec_cases'].append(dict(k=k, phase=phase, abs=abs_sampler(s, vtok, btoks, nn_keys), full=tW, cur=tF, prev=prev_term if pure else None, shell=sh))
@@ -409,6 +409,15 @@ def one_config(job):
                     _, _, btoks2 = dump_file(scratch2, vtok, nn_keys)
                     dfl = (vtok.get(np.zeros((0, s2.n_dim))), vtok.get(np.zeros(0, dtype=int)), vtok.get(np.zeros(0)))
                     out['codec_cases'][-1].update(resumed=abs_sampler(s2, vtok, btoks2, nn_keys), n=len(s2.bounds), dflt=dfl)
+                # every bound is read back by the class its stored type names (BoundList.r_sbound)
+                import h5py
+                with h5py.File(snap, 'r') as fchk:
+                    for bi, b2 in enumerate(s2.bounds):
+                        tname = fchk['bound_%d' % bi].attrs['type']
+                        tname = tname.decode() if isinstance(tname, bytes) else str(tname)
+                        if type(b2).__name__ != tname:
+                            out['fails'].append(('after a resume at batch boundary %d (%s) bound %d is a %s, the checkpoint stores a %s' % (k, phase, bi, type(b2).__name__, tname), k))
+                            break
                 ca, cb = canon_sampler(s), canon_sampler(s2)
                 out['compared'] += 1
                 for key in SAMPLER_STATE:
@@ -464,7 +473,9 @@ def configs(tier, seed):
           dict(base, blob='two', vectorized=True, n_batch=7, n_live=40, n_update=10, family='twomode'),
           dict(base, prior_object=True, blob='vec3', family='halfspace', n_dim=3, toggles=3),
           # tiny live set: empty shells are removed when exploration ends (the file must be renumbered with the memory)
-          dict(base, n_live=10, n_update=1, n_batch=2, blob='float', discard_at_end=True, n_shell=5, n_eff=100, max_boundaries=500 if tier == 'quick' else 3000)]
+          dict(base, n_live=10, n_update=1, n_batch=2, blob='float', discard_at_end=True, n_shell=5, n_eff=100, max_boundaries=300 if tier == 'quick' else 3000),
+          # the first shell (the unit cube) is empty when exploration ends and is removed: bound_0 on file is a nautilus bound
+          dict(base, family='twomode', seed=22, n_live=8, n_update=1, n_batch=3, blob='float', n_shell=10, n_eff=60, max_boundaries=130 if tier == 'quick' else 3000)]
     if tier == 'thorough':
         cs += [dict(base, blob='int', n_batch=1, n_live=30, n_update=8, n_eff=80), dict(base, family='funnel', n_dim=3, n_live=100, n_batch=50, blob='vec1'),
                dict(base, n_networks=2, n_live=100, n_dim=4, blob='none'), dict(base, family='plateau', blob='float', discard_at_end=True),
